@@ -121,7 +121,10 @@ OnlyCompleteOutput ==
                    /\ \E p \in DOMAIN procs : \E j \in procs[p].jobs :
                          j.t = n /\ j.st = "exited" /\ j.rv = 0 /\ ~j.std /\ ~j.file]_vars
 
-NoTmpLeft == Quiet => tmp = {}
+\* no temporary output file of a target that was built is left behind (a stale one somebody else left beside a
+\* target that was not touched is not redo's to remove)
+NoTmpLeft == (Quiet /\ hist # << >> /\ LastH.a = "cmd") =>
+                 \A t \in tmp : t \in TmpFiles /\ t \notin {LastH.ran[i] : i \in 1..Len(LastH.ran)}
 
 (***************************************************************************)
 (* C05                                                                     *)
